@@ -356,6 +356,32 @@ func runC15(c *eng.Ctx) {
 		}
 		c.Ob("ALIAS-location", eng.FuncName(fn)+" shares-location", shared, fn.Pos(), "fact used by the rule: one location object per data node is shared by all its replicas (if this changes the write-through rule is stronger than needed, never weaker)")
 	}
+	// the list of candidate servers is sorted in place before every pick (keepDataNodesSorted); a replica's location
+	// must therefore be an object of its own, not the address of an element of such a list (sorting would swap another
+	// server's data under the pointer, and the placement test would see the existing replicas on the wrong servers)
+	if ks := c.NeedFunc("weed/shell", "keepDataNodesSorted"); ks != nil {
+		inPlace := len(eng.Find(ks, eng.PlainCallTo("sort.Slice", "sort.SliceStable", "sort.Sort"))) > 0
+		c.Ob("ALIAS-location", eng.FuncName(ks)+" sorts-in-place", inPlace, ks.Pos(), "fact used by the rule: the candidate list is reordered in place")
+		nLoc := 0
+		for _, top := range P.SrcFuncs("weed/shell") {
+			for i, in := range eng.Find(top, eng.StoreToField("VolumeReplica.location")) {
+				st := in.(*ssa.Store)
+				nLoc++
+				c.Touch(top)
+				elem := false
+				for _, v := range eng.Resolve(st.Val) {
+					if _, isIA := eng.Unwrap(v).(*ssa.IndexAddr); isIA {
+						elem = true
+					}
+				}
+				c.Ob("ALIAS-location", fmt.Sprintf("%s replica-location-own-object#%d", eng.FuncName(top), i), !elem, st.Pos(),
+					"a replica's location is not the address of an element of a location list (those lists are sorted in place)")
+			}
+		}
+		if nLoc == 0 {
+			c.Undecided("ALIAS-location", "replica-location-own-object", ks.Pos(), "no initialisation of VolumeReplica.location found")
+		}
+	}
 	c.Expect("GUARD-good-move", 9)
 	c.Expect("GUARD-capacity", 4)
 	c.Expect("GUARD-repair", 4)
